@@ -153,19 +153,44 @@ def rule_straddle(ctx, px):
             s = alt
         if len(s) > 1:
             first_chars.add(s[0])
-    repairs = []
+    # names holding the carried text: assigned from <buffer>.getvalue()
+    carried = set()
     for n in ast.walk(g.node):
+        if isinstance(n, ast.Assign) and isinstance(n.targets[0], ast.Name) and "getvalue()" in ast.unparse(n.value):
+            carried.add(n.targets[0].id)
+    repairs = []
+    weak = []
+    for n in ast.walk(g.node):
+        subj = None
         if isinstance(n, ast.Call) and isinstance(n.func, ast.Attribute) and n.func.attr == "endswith" and n.args \
                 and isinstance(n.args[0], ast.Constant) and n.args[0].value in first_chars:
-            repairs.append(n)
+            subj = n.func.value
         if isinstance(n, ast.Compare) and isinstance(n.left, ast.Subscript) and ast.unparse(n.left.slice) in ("-1", "-1:") \
                 and any(isinstance(c, ast.Constant) and c.value in first_chars for c in n.comparators):
-            repairs.append(n)
+            subj = n.left.value
+        if subj is None:
+            continue
+        st = ast.unparse(subj)
+        if st in carried or "getvalue()" in st:
+            repairs.append(n)  # idiom 1: the end of the carried text itself is inspected when a terminator is found
+        elif st == chunk_var:
+            # idiom 2: a flag remembering that the previous chunk ended with the terminator's first character; sound only
+            # if empty chunks do not reset it: the flag assignment must be conditioned on a non-empty chunk
+            pm = pyfront.parent_map(g.node)
+            stmt = pyfront.enclosing_stmt(n, pm)
+            gd = pyfront.guards_of(g.node, n) or ()
+            terms = pyfront.guard_terms(gd)
+            nonempty = any((e in (chunk_var, f"len({chunk_var}) > 0", f"len({chunk_var})") and p) or (e in (f"not {chunk_var}", f"len({chunk_var}) == 0") and not p)
+                           for e, p in terms)
+            keeps = isinstance(stmt, ast.Assign) and isinstance(stmt.value, ast.BoolOp)
+            (repairs if (nonempty or keeps) else weak).append(n)
     ok = (not scans_chunk_only) or bool(repairs)
     why = ("searches more than the bare chunk" if not scans_chunk_only else
            ("re-joins / holds back a split terminator" if repairs else
+            ("a per-chunk flag remembers a trailing terminator prefix but is overwritten by every chunk, including empty ones: "
+             "a terminator cut as [..\\r] [] [\\n..] is not re-joined" if weak else
             f"pattern {pat!r} can match {hi} characters but only the current chunk is searched: a terminator cut "
-            "between two chunks is seen as a different terminator (CRLF becomes LF after whitespace trimming)"))
+            "between two chunks is seen as a different terminator (CRLF becomes LF after whitespace trimming)")))
     ctx.ob(R, g.module.rel, f"{g.short} :: multi-character terminator {pat!r} vs chunk boundaries", ok, why, node.lineno)
 
 
@@ -188,11 +213,56 @@ def rule_pp_contract(ctx, px):
     for n in ast.walk(init.node):
         if isinstance(n, ast.Call) and ast.unparse(n.func) == "re.compile" and n.args and isinstance(n.args[0], ast.Constant):
             pat = n.args[0].value
+    # locals aliasing the line component / the match object
+    line_alias = {f"{p}[0]"}
+    match_vars = set()
+    for n in ast.walk(t.node):
+        if isinstance(n, ast.Assign) and isinstance(n.targets[0], ast.Name):
+            v = ast.unparse(n.value)
+            if v in line_alias:
+                line_alias.add(n.targets[0].id)
+    for n in ast.walk(t.node):
+        if isinstance(n, ast.Assign) and isinstance(n.targets[0], ast.Name) and isinstance(n.value, ast.Call) \
+                and isinstance(n.value.func, ast.Attribute) and n.value.func.attr == "search" and n.value.args \
+                and ast.unparse(n.value.args[0]) in line_alias:
+            match_vars.add(n.targets[0].id)
+    ret_guards = {}
+    for st, gd in pyfront.walk_guarded(t.node.body):
+        if isinstance(st, ast.Return):
+            ret_guards[id(st)] = pyfront.guard_terms(gd)
+
+    def implies_no_trailing_ws(terms):
+        """accepted reasons for returning the argument unchanged"""
+        for e, pol in terms:
+            for mv in match_vars:
+                if (e == f"{mv} is not None" and not pol) or (e == f"{mv} is None" and pol) or (e == mv and not pol):
+                    return True
+            for la in line_alias:
+                if (e in (f"len({la}) == 0", f"not {la}", f"{la} == ''") and pol) or (e in (f"len({la}) > 0", la) and not pol):
+                    return True
+                if (e == f"{la}[-1].isspace()" and not pol) or (e == f"not {la}[-1].isspace()" and pol):
+                    return True
+        return False
+
     for i, r in enumerate(rets):
         v = r.value
         txt = ast.unparse(v) if v is not None else "None"
         if txt == p:
-            ctx.ob(R, t.module.rel, f"{t.short} :: return #{i + 1} is the argument itself", True, "", r.lineno)
+            terms = ret_guards.get(id(r), [])
+            # an `a or b` early-out: every disjunct must be an accepted reason
+            ok_same = False
+            for e, pol in terms:
+                try:
+                    node = ast.parse(e, mode="eval").body
+                except SyntaxError:
+                    continue
+                if pol and isinstance(node, ast.BoolOp) and isinstance(node.op, ast.Or):
+                    ok_same = ok_same or all(implies_no_trailing_ws([(ast.unparse(d), True)]) for d in node.values)
+            ok_same = ok_same or implies_no_trailing_ws(terms)
+            ctx.ob(R, t.module.rel, f"{t.short} :: return #{i + 1} is the argument itself, only when the line has no trailing whitespace", ok_same,
+                   "no match of the end-anchored whitespace pattern / empty line" if ok_same else
+                   f"the line is returned untrimmed under {terms}, which does not imply that it has no trailing whitespace in the "
+                   "sense of the trim pattern (\\s is Unicode-aware)", r.lineno)
             continue
         ok = isinstance(v, ast.Tuple) and len(v.elts) == 2 and ast.unparse(v.elts[1]) == f"{p}[1]"
         ctx.ob(R, t.module.rel, f"{t.short} :: return #{i + 1} keeps the terminator component", ok,
